@@ -51,6 +51,7 @@ type Knobs struct {
 	ArriveLag       time.Duration // the request reaches the handler this much (fake clock) after Do sent it
 	H1LateClose     bool          // HTTP/1.1 over TLS: on cancellation the server hears of it before the client's socket is closed (see runWatcher)
 	OpaqueDoErr     int           // the HTTPClient reports a request that failed because the context ended in its own words: 1 text only, 2 wrapping the other context error, 3 a stream-reset text (0: as net/http does)
+	DoGivesUp       bool          // the HTTPClient gives up on its own account while it waits for the response (http.Client.Timeout): Do fails, the context is fine, and the transport may still be busy with the request
 	H1LateCloseSlow bool          // ... and the socket\'s close is slow in coming
 	H1Close         bool          // HTTP/1.1: the server closes the connection when request bytes keep coming after its answer (see runPump)
 	UpScript        []int         // scripted read sizes (enumeration worlds); nil: use UpFrag
@@ -422,6 +423,12 @@ func (n *Net) Do(req *http.Request) (*http.Response, error) {
 			n.S.GateOpt(c.ID+"/hdr.late", nil, core.FlagDaemon)
 			touchHeader(req.Header)
 		}()
+	}
+	if c.K.DoGivesUp {
+		err := errors.New("net/http: request canceled (Client.Timeout exceeded while awaiting headers)")
+		e.Abort(err)
+		closeBody(req)
+		return nil, urlErr(req, err)
 	}
 	n.S.Go(c.ID+"/handler", func(*core.Task) { e.runHandler() })
 	n.S.Go(c.ID+"/pump", func(*core.Task) { e.runPump() })
